@@ -65,6 +65,25 @@ pub fn is_lower_precedence_than_method_call(expr: &Expr) -> bool {
 }
 
 ///
+/// Returns `true` if the next tokens of input are the tokens of given `GroupDeterminer`.
+/// `=>[]` is the collect combinator only when its brackets are empty: a bracket group with content
+/// (`=> [f, g][1]`) is the beginning of an operand of `=>`.
+///
+fn is_group_start(group: &GroupDeterminer, input: ParseStream<'_>) -> bool {
+    group.check_input(input)
+        && !(group.combinator() == Some(Combinator::Collect) && {
+            let forked = input.fork();
+            forked.parse::<syn::Token![=]>().is_ok()
+                && forked.parse::<syn::Token![>]>().is_ok()
+                && forked
+                    .cursor()
+                    .group(Delimiter::Bracket)
+                    .map(|(content, ..)| !content.eof())
+                    .unwrap_or(false)
+        })
+}
+
+///
 /// Parses input `ParseStream` until one of provided `GroupDeterminer`'s check will be valid or it reaches end.
 ///
 pub fn parse_until<'a, T: Parse + Clone + Debug>(
@@ -89,10 +108,9 @@ pub fn parse_until<'a, T: Parse + Clone + Debug>(
                 //
                 let forked = input.fork();
                 deferred_determiner.erase_input(&forked)?;
-                if !group_determiners
-                    .clone()
-                    .any(|group| group.combinator().is_some() && group.check_input(&forked))
-                {
+                if !group_determiners.clone().any(|group| {
+                    group.combinator().is_some() && is_group_start(group, &forked)
+                }) {
                     return Err(forked.error("Expected combinator after `~`"));
                 }
                 deferred_determiner.erase_input(input)?;
@@ -107,7 +125,7 @@ pub fn parse_until<'a, T: Parse + Clone + Debug>(
             } else {
                 group_determiners
                     .clone()
-                    .find(|group| group.check_input(input))
+                    .find(|group| is_group_start(group, input))
             };
             possible_group
                 .map(|group| {
